@@ -22,6 +22,16 @@ theorem C07_finished_not_killed (r : ChildRes) :
     and the evaluation counts as rejected (so the run continues). -/
 theorem C07_timeout : evalProc true .timeout = (some .rejected, [.spawn, .killpg, .waitpid]) := rfl
 
+/-- ... also when the leader has already been reaped by the pending wait on the child (a child that closed its pipes
+    and kept running): whoever reaps it, the evaluation counts as rejected, not as a failure - an obligation on the
+    source fact `Generated.reapEchildOk` (fix fa38961; the negative witness is the behaviour before it). -/
+theorem C07_timeout_reaped (w : WaitRes) (hw : w ≠ .otherError) : endedResult Generated.reapEchildOk w = .rejected := by
+  have hg : Generated.reapEchildOk = true := by decide
+  rw [hg]
+  cases w <;> simp_all [endedResult, reapResult]
+
+example : endedResult false .alreadyReaped = .failed .killFailed := rfl
+
 /-- Every way an evaluation ends other than the child finishing by itself - time limit, abort broadcast
     (termination request, failure of a sibling), being dropped by the controller (target reached) - kills the
     child's process group. -/
